@@ -33,24 +33,24 @@ Section StmtInd.
     end.
 End StmtInd.
 
-Lemma gen_eq il lf bf s :
-  gen il lf bf s =
+Lemma gen_eq ascii il lf bf s :
+  gen ascii il lf bf s =
   match s with
   | SAssignT _ t => if can_assign t then Ok [PAssign t] else SyntaxErr
   | SText => Ok [PSimple]
   | SBreak => if il then Ok [PBreak] else SyntaxErr
   | SContinue => if il then Ok [PContinue] else SyntaxErr
-  | SCallKw kws => gen_call false lf bf kws
+  | SCallKw kws => gen_call ascii false lf bf kws
   | SUse _ => Ok [PSimple]
-  | SIf b e => match gens il lf bf b, gens il lf bf e with Ok pb, Ok pe => Ok [PIf pb; PIf pe] | _, _ => SyntaxErr end
-  | SFor false b e => match gens true true false b, gens il false false e with Ok pb, Ok pe => Ok [PFor pb; PIf pe] | _, _ => SyntaxErr end
-  | SFor true b e => match gens true true false b, gens false false false e with
+  | SIf b e => match gens ascii il lf bf b, gens ascii il lf bf e with Ok pb, Ok pe => Ok [PIf pb; PIf pe] | _, _ => SyntaxErr end
+  | SFor false b e => match gens ascii true true false b, gens ascii il false false e with Ok pb, Ok pe => Ok [PFor pb; PIf pe] | _, _ => SyntaxErr end
+  | SFor true b e => match gens ascii true true false b, gens ascii false false false e with
                      | Ok pb, Ok pe => Ok [PDef [] [PFor pb; PIf pe]; PSimple] | _, _ => SyntaxErr end
-  | SInline _ b => gens il false false b
-  | SSame b => gens il lf bf b
-  | SMacro ps b => if nodupb ps then match gens false false false b with Ok pb => Ok [PDef (ps ++ specials ps b) pb; PSimple] | SyntaxErr => SyntaxErr end else SyntaxErr
-  | SCallBlock ps _ kws b => if nodupb ps then match gens false false false b, gen_call true lf bf kws with Ok pb, Ok pc => Ok (PDef (ps ++ specials ps b) pb :: pc) | _, _ => SyntaxErr end else SyntaxErr
-  | SBlock b => match gens false false true b with Ok pb => Ok [PDef [] pb; PSimple] | SyntaxErr => SyntaxErr end
+  | SInline _ b => gens ascii il false false b
+  | SSame b => gens ascii il lf bf b
+  | SMacro ps b => if nodupb ps then match gens ascii false false false b with Ok pb => Ok [PDef (ps ++ specials ps b) pb; PSimple] | SyntaxErr => SyntaxErr end else SyntaxErr
+  | SCallBlock ps _ kws b => if nodupb ps then match gens ascii false false false b, gen_call ascii true lf bf kws with Ok pb, Ok pc => Ok (PDef (ps ++ specials ps b) pb :: pc) | _, _ => SyntaxErr end else SyntaxErr
+  | SBlock b => match gens ascii false false true b with Ok pb => Ok [PDef [] pb; PSimple] | SyntaxErr => SyntaxErr end
   end.
 Proof. destruct s; try reflexivity. Qed.
 
@@ -77,6 +77,7 @@ Proof.
 Qed.
 
 Section Wf.
+  Variable ascii : name -> bool.
   Variable pynorm : name -> name.
   (* NoAlias: Python's identifier normalisation does not identify two distinct template names *)
   Hypothesis pynorm_inj : forall a b, pynorm a = pynorm b -> a = b.
@@ -117,26 +118,27 @@ Section Wf.
 
   (* the keyword list of an emitted call — explicit keywords followed by the engine's own — is
      accepted by the Python compiler *)
-  Lemma gen_call_ok fc lf bf kws il t : gen_call fc lf bf kws = Ok t -> forallb (py_ok pynorm il) t = true.
+  Lemma gen_call_ok fc lf bf kws il t : gen_call ascii fc lf bf kws = Ok t -> forallb (py_ok pynorm il) t = true.
   Proof.
     unfold gen_call. destruct (nodupb kws) eqn:E; [|discriminate]. destruct (disjb kws (extras fc lf bf)) eqn:D; [|discriminate].
     cbn [andb]. destruct (reserved_free kws); [|discriminate]. intros H. injection H as <-. cbn [forallb py_ok andb]. rewrite andb_true_r.
+    destruct (forallb ascii kws); [|reflexivity].
     apply nodupb_map. apply nodupb_NoDup. apply nodup_app; [now apply nodupb_NoDup|apply extras_nodup|exact (disjb_spec _ _ D)].
   Qed.
 
   Definition GenOk (s : stmt) : Prop :=
-    forall il lf bf t, gen il lf bf s = Ok t -> forallb (py_ok pynorm il) t = true.
+    forall il lf bf t, gen ascii il lf bf s = Ok t -> forallb (py_ok pynorm il) t = true.
 
   Lemma gens_ok l : Forall GenOk l ->
-    forall il lf bf t, gens il lf bf l = Ok t -> forallb (py_ok pynorm il) t = true.
+    forall il lf bf t, gens ascii il lf bf l = Ok t -> forallb (py_ok pynorm il) t = true.
   Proof.
     intros H. induction H as [|x r Hx Hr IH]; intros il lf bf t Hg; cbn [gens] in Hg.
     - injection Hg as <-. reflexivity.
-    - destruct (gen il lf bf x) as [a|] eqn:Ea; [|discriminate]. destruct (gens il lf bf r) as [b|] eqn:Eb; [|discriminate].
+    - destruct (gen ascii il lf bf x) as [a|] eqn:Ea; [|discriminate]. destruct (gens ascii il lf bf r) as [b|] eqn:Eb; [|discriminate].
       injection Hg as <-. rewrite forallb_app, (Hx il lf bf a Ea), (IH il lf bf b Eb). reflexivity.
   Qed.
 
-  Theorem gen_wf : forall s il lf bf t, gen il lf bf s = Ok t -> forallb (py_ok pynorm il) t = true.
+  Theorem gen_wf : forall s il lf bf t, gen ascii il lf bf s = Ok t -> forallb (py_ok pynorm il) t = true.
   Proof.
     induction s as [sc tg| | | |k|n|b e Hb He|r b e Hb He|w b Hb|b Hb|ps b Hb|ps us k b Hb|b Hb] using stmt_ind';
       intros il lf bf t H; rewrite gen_eq in H.
@@ -147,22 +149,42 @@ Section Wf.
     - destruct il; [injection H as <-; reflexivity|discriminate].
     - exact (gen_call_ok _ _ _ _ il t H).
     - injection H as <-. reflexivity.
-    - destruct (gens il lf bf b) as [pb|] eqn:Eb; [|discriminate]. destruct (gens il lf bf e) as [pe|] eqn:Ee; [|discriminate].
+    - destruct (gens ascii il lf bf b) as [pb|] eqn:Eb; [|discriminate]. destruct (gens ascii il lf bf e) as [pe|] eqn:Ee; [|discriminate].
       injection H as <-. cbn [forallb py_ok andb]. now rewrite (gens_ok b Hb _ _ _ pb Eb), (gens_ok e He _ _ _ pe Ee).
     - destruct r.
-      + destruct (gens true true false b) as [pb|] eqn:Eb; [|discriminate]. destruct (gens false false false e) as [pe|] eqn:Ee; [|discriminate].
+      + destruct (gens ascii true true false b) as [pb|] eqn:Eb; [|discriminate]. destruct (gens ascii false false false e) as [pe|] eqn:Ee; [|discriminate].
         injection H as <-. cbn [forallb py_ok andb]. now rewrite (gens_ok b Hb _ _ _ pb Eb), (gens_ok e He _ _ _ pe Ee).
-      + destruct (gens true true false b) as [pb|] eqn:Eb; [|discriminate]. destruct (gens il false false e) as [pe|] eqn:Ee; [|discriminate].
+      + destruct (gens ascii true true false b) as [pb|] eqn:Eb; [|discriminate]. destruct (gens ascii il false false e) as [pe|] eqn:Ee; [|discriminate].
         injection H as <-. cbn [forallb py_ok andb]. now rewrite (gens_ok b Hb _ _ _ pb Eb), (gens_ok e He _ _ _ pe Ee).
     - exact (gens_ok b Hb _ _ _ t H).
     - exact (gens_ok b Hb _ _ _ t H).
-    - destruct (nodupb ps) eqn:E; [|discriminate]. destruct (gens false false false b) as [pb|] eqn:Eb; [|discriminate].
+    - destruct (nodupb ps) eqn:E; [|discriminate]. destruct (gens ascii false false false b) as [pb|] eqn:Eb; [|discriminate].
       injection H as <-. cbn [forallb py_ok andb]. rewrite (nodupb_map _ (specials_nodup ps b E)), (gens_ok b Hb _ _ _ pb Eb). reflexivity.
     - destruct (nodupb ps) eqn:E; [|discriminate].
-      destruct (gens false false false b) as [pb|] eqn:Eb; [|discriminate].
-      destruct (gen_call true lf bf k) as [pc|] eqn:Ec; [|discriminate].
+      destruct (gens ascii false false false b) as [pb|] eqn:Eb; [|discriminate].
+      destruct (gen_call ascii true lf bf k) as [pc|] eqn:Ec; [|discriminate].
       injection H as <-. cbn [forallb py_ok andb]. rewrite (nodupb_map _ (specials_nodup ps b E)), (gens_ok b Hb _ _ _ pb Eb), (gen_call_ok _ _ _ _ il pc Ec). reflexivity.
-    - destruct (gens false false true b) as [pb|] eqn:Eb; [|discriminate].
+    - destruct (gens ascii false false true b) as [pb|] eqn:Eb; [|discriminate].
       injection H as <-. cbn [forallb py_ok andb]. now rewrite (gens_ok b Hb _ _ _ pb Eb).
   Qed.
 End Wf.
+
+(* since non-ASCII keyword names never become Python identifiers, the keyword list of an emitted call is
+   accepted under a normalisation that merely fixes ASCII names and the engine's own three keywords —
+   no NoAlias hypothesis *)
+Lemma gen_call_ok_ascii (ascii : name -> bool) (pynorm : name -> name) :
+  (forall a, ascii a = true -> pynorm a = a) ->
+  pynorm CALLER = CALLER -> pynorm LOOPVARS = LOOPVARS -> pynorm BLOCKVARS = BLOCKVARS ->
+  forall fc lf bf kws il t, gen_call ascii fc lf bf kws = Ok t -> forallb (py_ok pynorm il) t = true.
+Proof.
+  intros Ha Hc Hl Hb fc lf bf kws il t. unfold gen_call.
+  destruct (nodupb kws) eqn:E; [|discriminate]. destruct (disjb kws (extras fc lf bf)) eqn:D; [|discriminate].
+  cbn [andb]. destruct (reserved_free kws); [|discriminate]. intros H. injection H as <-. cbn [forallb py_ok andb]. rewrite andb_true_r.
+  destruct (forallb ascii kws) eqn:A; [|reflexivity].
+  assert (Hm : map pynorm (kws ++ extras fc lf bf) = kws ++ extras fc lf bf).
+  { rewrite map_app. f_equal.
+    - rewrite forallb_forall in A. clear E D. induction kws as [|x r IH]; [reflexivity|]. cbn [map].
+      rewrite (Ha x (A x (or_introl eq_refl))), IH; [reflexivity|]. intros y Hy. apply A. now right.
+    - destruct fc, lf, bf; cbn; rewrite ?Hc, ?Hl, ?Hb; reflexivity. }
+  rewrite Hm. apply nodupb_NoDup. apply nodup_app; [now apply nodupb_NoDup|apply extras_nodup|exact (disjb_spec _ _ D)].
+Qed.
